@@ -26,7 +26,7 @@ ASSUMPTIONS = ["instances created before a clear() are don't-care afterwards (ne
 ANCHORS = ["update_cache", "SymbolGraph.add_node", "SymbolGraph.remove_node", "SymbolGraph.remove_dead_instances",
            "SymbolGraph.get_instances_of_type", "Symbol.__new__"]
 
-OPS = ["create", "create", "create", "drop", "drop", "gc", "relate", "q_new", "q_new", "q_build", "q_build_attr", "q_eval", "q_eval",
+OPS = ["create", "create", "create", "clone", "drop", "drop", "gc", "relate", "q_new", "q_new", "q_build", "q_build_attr", "q_eval", "q_eval",
        "clear", "forget", "forget", "q_rule", "q_rule_eval", "q_rule_eval", "q_pair"]
 
 
@@ -35,7 +35,8 @@ def plan(tier):
             "min_nontrivial": 100,
             "min_counters": {"queries_checked": 5000, "instances_reclaimed": 1000,
                              "clears": 100, "reevaluations": 500, "bulk_dropped": 2000, "rule_pairs_compared": 300,
-                             "rule_pairs_with_answers": 100, "pair_queries_checked": 300, "stored_queries_with_the_variable_behind_a_nested_query": 100}}
+                             "rule_pairs_with_answers": 100, "pair_queries_checked": 300, "stored_queries_with_the_variable_behind_a_nested_query": 100,
+                             "clones": 300 if tier == "quick" else 5000}}
 
 
 def setup(ctx):
@@ -53,14 +54,17 @@ def gen(rng, tier, ctx):
             op = "create"
         if op == "create":
             steps.append(["create", rng.choice(["Person", "Employee", "Manager", "Org", "Dept", "Chief", "Volunteer", "WorkingStudent", "VOrg", "VOrg", "VPerson",
-                                                "SeasonalA", "SeasonalB", "Row", "Lenient"])])
+                                                "SeasonalA", "SeasonalB", "Row", "Row", "Lenient", "Visitor"])])
+        elif op == "clone":
+            # "however they were created": a copy, a deep copy, an unpickled instance (every protocol)
+            steps.append(["clone", rng.randrange(1000), rng.choice(["copy", "deepcopy"] + [f"pickle{p}" for p in range(6)])])
         elif op in ("drop",):
             steps.append(["drop", rng.randrange(1000)])
         elif op == "relate":
             steps.append(["relate", rng.choice(["works_for", "member_of", "members", "sub_org_of"]), rng.randrange(1000), rng.randrange(1000)])
         elif op in ("q_new", "q_build", "q_build_attr"):
             steps.append([op, rng.choice(["Person", "Employee", "Manager", "Org", "Dept", "Chief", "Volunteer", "WorkingStudent", "VOrg", "VPerson",
-                                          "SeasonalA", "Row", "Lenient"])])
+                                          "SeasonalA", "Row", "Row", "Lenient", "Visitor"])])
         elif op == "q_pair":
             t = rng.choice(["Person", "Org", "Employee", "Dept"])
             steps.append([op, t, t if rng.random() < 0.7 else rng.choice(["Person", "Org", "Employee", "Dept", "Volunteer"])])
@@ -94,6 +98,8 @@ def witnesses():
                                                         ["q_new", "Volunteer"]]},
             "late-branch-variable-keeps-first-domain": {"steps": [
         ["create", "Person"], ["create", "Org"], ["q_rule", "Person", "Org"], ["q_rule_eval", 0], ["create", "Org"], ["q_rule_eval", 0]]},
+            "instance-unpickled-with-an-old-protocol-not-registered": {"steps": [
+        ["create", "Row"], ["clone", 0, "pickle0"], ["clone", 0, "pickle1"], ["clone", 0, "copy"], ["q_new", "Row"]]},
             "instances-merged-by-an-attribute-called-_id_": {"steps": [
         ["create", "Row"], ["create", "Row"], ["create", "Lenient"], ["create", "Lenient"], ["q_new", "Row"], ["q_new", "Lenient"],
         ["q_build_attr", "Row"]]},
@@ -219,6 +225,28 @@ def run(spec, ctx):
             strong[name] = obj
             census[name] = weakref.ref(obj)
             shape.append("c")
+        elif op == "clone":
+            # instances of classes without managed fields (a copy of a related instance is C14's / C16's business)
+            plain = [n for n, o in sorted(strong.items()) if type(o) in (om.Row, om.Visitor) and n not in pre_clear]
+            if not plain:
+                continue
+            import copy
+            import pickle
+            src = strong[plain[step[1] % len(plain)]]
+            seq += 1
+            name = f"{type(src).__name__}{seq}"
+            if step[2] == "copy":
+                obj = copy.copy(src)
+            elif step[2] == "deepcopy":
+                obj = copy.deepcopy(src)
+            else:
+                obj = pickle.loads(pickle.dumps(src, protocol=int(step[2][-1])))
+            strong[name] = obj
+            census[name] = weakref.ref(obj)
+            C["clones:" + step[2]] += 1
+            C["clones"] += 1
+            del src
+            shape.append("k")
         elif op == "create_many":
             for _ in range(step[2]):
                 seq += 1
